@@ -202,7 +202,7 @@ class ByteStoreEngine(Engine):
                 "edit": rng.choice([3, 6]), "file_write": rng.choice([1, 3]), "undo": rng.choice([1, 3]),
                 "redo": rng.choice([1, 2]), "reopen": rng.choice([0, 1, 2]), "flip": rng.choice([0, 1, 2]),
                 "fail": rng.choice([0, 1, 2]), "refactor": rng.choice([0, 2]), "create": rng.choice([0, 1]),
-                "unencodable": rng.choice([0, 1]), "bytes_write": rng.choice([0, 0, 1]), "recode": rng.choice([0, 0, 1]),
+                "unencodable": rng.choice([0, 1]), "bytes_write": rng.choice([0, 0, 1]), "recode": rng.choice([0, 0, 1]), "unwind": rng.choice([0, 1, 1]),
             },
         }
         init = []
@@ -258,6 +258,9 @@ class ByteStoreEngine(Engine):
             elif k == "unencodable":
                 # an edit that brings in a character the declared codec cannot hold
                 steps.append({"op": "unencodable", "path": p, "held": held, "extra": rng.choice(["日", "Ж", "€", "😀", "é"])})
+            elif k == "unwind":
+                n = rng.randint(2, 4)
+                steps.extend([{"op": "undo"}] * n + [{"op": "redo"}] * n)
             elif k in ("undo", "redo", "reopen"):
                 steps.append({"op": k})
             elif k == "flip":
